@@ -132,7 +132,9 @@ Record cfg := mkCfg {
   has_attrs : bool;        (* the request has an attribute-requests field *)
   has_events : bool;       (* the request has an event-requests field *)
   ev_lo : N;               (* EventReader.max_seen_event_number at the start *)
-  ev_hi : N                (* EventReader.next_max_seen_event_number *)
+  ev_hi : N;               (* EventReader.next_max_seen_event_number *)
+  accept : option N        (* the peer: [Some k] answers the first k chunks with StatusResponse Success and the
+                              next one with another status, or not at all; [None] answers Success every time *)
 }.
 
 (** * The responder state: WriteBuf + the fields of ReportDataResponder *)
@@ -213,9 +215,19 @@ Inductive outcome :=
 | ODone        (* the last message was sent *)
 | OStatus      (* ended with a ResourceExhausted status response *)
 | OError       (* an error propagated out of [respond]: the exchange is abandoned *)
+| OAbort       (* the peer did not answer a chunk with Success ([recv_status_success] false, or no
+                  answer at all): the responder stops, nothing more is sent *)
 | OFuel.       (* a loop was cut off by the fuel of the model *)
 
 Inductive r := Go (s : st) | Halt (o : outcome) (s : st).
+
+(** [recv_status_success] after a chunk with MoreChunkedMessages: the peer's answer to the chunk
+    that has just been pushed to [out] *)
+Definition refused (c : cfg) (s : st) : bool :=
+  match accept c with
+  | Some k => k <? N.of_nat (length (out s))
+  | None => false
+  end.
 
 (** The retry loop shared by [report_attributes] (non-array branch) and
     [send_array_items]: write; NoSpace => (reply still without payload =>
@@ -230,7 +242,7 @@ Fixpoint write_atom (n : nat) (c : cfg) (k : kind) (a : atom) (s : st) : r :=
            | S n' =>
                match send c k s with
                | None => Halt OError s
-               | Some s1 => write_atom n' c k a s1
+               | Some s1 => if refused c s1 then Halt OAbort s1 else write_atom n' c k a s1
                end
            end
   end.
@@ -260,7 +272,7 @@ Fixpoint probe_end (n : nat) (c : cfg) (sz : N) (s : st) : r :=
        | S n' =>
            match send c KAttrs s with
            | None => Halt OError s
-           | Some s1 => probe_end n' c sz s1
+           | Some s1 => if refused c s1 then Halt OAbort s1 else probe_end n' c sz s1
            end
        end.
 
@@ -301,7 +313,7 @@ Definition write_evstatus (c : cfg) (a : atom) (s : st) : r :=
   | None =>
       match send c KEvents s with
       | None => Halt OError s
-      | Some s1 => or_error s1 (put (TAtom a) s1)
+      | Some s1 => if refused c s1 then Halt OAbort s1 else or_error s1 (put (TAtom a) s1)
       end
   end.
 
@@ -336,7 +348,7 @@ Fixpoint ev_loop (n : nat) (c : cfg) (evs : list ev) (s : st) : r :=
        | S n' =>
            match send c KEvents s1 with
            | None => Halt OError s1
-           | Some s2 => ev_loop n' c evs s2
+           | Some s2 => if refused c s2 then Halt OAbort s2 else ev_loop n' c evs s2
            end
        end.
 
@@ -368,6 +380,45 @@ Definition respond (n : nat) (c : cfg) (its : list item) (stats : list atom) (ev
           | None => (OError, out s2)
           end
       end
+  end.
+
+(** [respond] with [send_if_empty = false] (a subscription report that is not due for liveness):
+    [empty] stays true iff no attribute item was expanded, no event status and no event was
+    written; then the prepared reply is dropped and nothing is sent.  (With nothing written no
+    chunk can have been flushed before.) *)
+Definition nothing_to_report (c : cfg) (its : list item) (stats : list atom) (evs : list ev) : bool :=
+  (negb (has_attrs c) || match its with [] => true | _ => false end)
+  && (negb (has_events c)
+      || (match stats with [] => true | _ => false end
+          && forallb (fun e => negb ((ev_lo c <? ev_num e) && (ev_num e <=? ev_hi c) && ev_sel e)) evs)).
+
+Definition respond_report (n : nat) (c : cfg) (its : list item) (stats : list atom) (evs : list ev)
+  : outcome * list (list token) :=
+  if nothing_to_report c its stats evs then (ODone, []) else respond n c its stats evs.
+
+(** * One round of the reporter for one subscription ([process_subscriptions] / [ReportContext])
+
+    The subscription carries what is still to be delivered: the event watermark
+    ([max_seen_event_number]) and the changed attributes not yet reported (in the code: the entries
+    of the changed-attribute table above [max_seen_attr_change_id]).  [Ok(true)] => [set_keep]: both
+    watermarks advance.  [Ok(false)] (the peer answered a chunk with another status, or the
+    interaction was ended with ResourceExhausted) => the subscription is dropped.  [Err] (no answer:
+    MRP gives up) => [set_keep_retry]: nothing advances, the same data is due again. *)
+Record sub := mkSub { sb_seen : N; sb_pending : list item }.
+
+Inductive silence := Refuses | Silent.
+
+Definition with_window (c : cfg) (lo hi : N) : cfg :=
+  mkCfg (tx c) (reserve_sz c) (sub_w c) (suppress c) (has_attrs c) (has_events c) lo hi (accept c).
+
+Definition report_round (n : nat) (c : cfg) (how : silence) (sb : sub) (hi : N)
+           (stats : list atom) (evs : list ev) : option sub * outcome * list (list token) :=
+  let '(o, chunks) := respond_report n (with_window c (sb_seen sb) hi) (sb_pending sb) stats evs in
+  match o with
+  | ODone => (Some (mkSub hi []), o, chunks)
+  | OAbort => (match how with Refuses => None | Silent => Some sb end, o, chunks)
+  | OStatus => (None, o, chunks)
+  | OError | OFuel => (Some sb, o, chunks)
   end.
 
 (** The constants of the build under test (transport/exchange.rs, im.rs) *)
